@@ -6,6 +6,7 @@
 -/
 import Driver.Fmt
 import Driver.Alg
+import Driver.Export
 
 open Lean Driver
 
@@ -15,6 +16,8 @@ def dispatch (op : String) (inp out : Json) : Json :=
   | "invoke" => runInvoke inp out
   | "history" => runHistory inp out
   | "repeat" => runRepeat inp out
+  | "exportrt" => runExportRT inp out
+  | "import" => runImport inp out
   | _ => Json.mkObj [("same", Json.bool false), ("diff", Json.str s!"unknown op {op}"), ("fails", Json.arr #[])]
 
 partial def loop (h : IO.FS.Stream) (o : IO.FS.Stream) : IO Unit := do
